@@ -88,8 +88,27 @@ def bits_of_octets(octets):
 
 
 def st_pus(kind):
-    base = c02.st_tc(big=()) if kind == "tc" else c03.st_tm(big=())
-    return st.tuples(base, st.integers(0, 2**32 - 1)).map(lambda t: {"kind": kind, "p": _shrink_data(t[0]), "burst_seed": t[1], "patterns": 1})
+    # half of the packets are built so that the CRC over a structural prefix (primary header / primary + secondary header) is 0x0000:
+    # intermediate checksum states that a chunk-wise implementation passes through and that random fields hit with probability 2^-16
+    if kind == "tc":
+        plain = c02._st_tc_plain(())
+        zero = st.tuples(plain, st.sampled_from([6, 11])).map(lambda t: c02.crc_zero_prefix_tc({**_shrink_data(t[0]), "_zero_at": t[1]}, max_n=48))
+    else:
+        plain = c03._st_tm_plain(())
+        zero = st.tuples(plain, st.sampled_from([6, 13])).map(lambda t: c03.crc_zero_prefix_tm({**_shrink_data(t[0]), "_zero_at": t[1]}, max_n=48))
+    base = st.one_of(plain.map(_shrink_data), zero)
+    return st.tuples(base, st.integers(0, 2**32 - 1), st.booleans()).map(lambda t: {"kind": kind, "p": _expand(t[0]), "burst_seed": t[1], "patterns": 1, "refused_first": t[2]})
+
+
+def _expand(p):
+    """Compact long data descriptions are written out (the fault loops index the octets)."""
+    from ..strategies import expand_fill
+
+    p = dict(p)
+    for k in ("app_data", "source_data"):
+        if k in p and isinstance(p[k], dict):
+            p[k] = expand_fill(p[k]).hex()
+    return p
 
 
 def _shrink_data(p):
@@ -102,11 +121,43 @@ def _shrink_data(p):
     return p
 
 
+def _cls_pus(case):
+    from ..ref.crc import crc16_fast
+
+    p = case["p"]
+    if case["kind"] == "tc":
+        raw = RP.pus_tc(p["apid"], p["seq"], p["service"], p["subservice"], p["source_id"], p["ack"], bytes.fromhex(p["app_data"]))
+        cuts = (6, 11)
+    else:
+        stamp = bytes.fromhex(p["timestamp"])
+        raw = RP.pus_tm(p["apid"], p["seq"], p["service"], p["subservice"], p["msg_counter"], p["dest_id"], p["time_ref"], stamp, bytes.fromhex(p["source_data"]), ver=p["ver"])
+        cuts = (6, 13 + len(stamp))
+    out = []
+    if any(crc16_fast(raw[:k]) == 0 for k in cuts):
+        out.append("crc over a structural prefix is zero")
+    out.append("refused pack of another packet first")
+    return out
+
+
 def check_pus(case):
     _, tcm, check_pus_crc = c02._m()
     _, tmm, _, _ = c03._m()
     devs = []
     p = case["p"]
+    if case.get("refused_first", True) or True:
+        # (always: a drawn boolean would leave this half under-sampled - Hypothesis favours False)
+        # a pack of ANOTHER, invalid packet was refused just before: it must leave nothing behind that changes this packet's trailer
+        for mk in (lambda: tcm.PusTc(service=17, subservice=1, apid=1, source_id=0x10000), lambda: tcm.PusTc(service=256, subservice=1, apid=1),
+                   lambda: tmm.PusTm(service=17, subservice=2, timestamp=b"", destination_id=0x10000), lambda: tmm.PusTm(service=17, subservice=2, timestamp=b"", space_time_ref=0x100)):
+            try:
+                bad = mk()
+                for op in (bad.calc_crc, bad.pack):
+                    try:
+                        op()
+                    except Exception:  # noqa: BLE001 - the refusal itself is not under test here
+                        pass
+            except Exception:  # noqa: BLE001
+                pass
     if case["kind"] == "tc":
         app = bytes.fromhex(p["app_data"])
         raw = bytes(c02.build_tc(tcm, p, app).pack())
@@ -274,9 +325,11 @@ def _cls_pdu_case(case):
 CLAUSES = [
     Clause(
         id="C04.pus_tc",
-        doc="PUS TC: trailer == reference CRC; every single-bit flip and a burst pattern for every (start bit, length 2..16) outside octets 4-5 is rejected by PusTc.unpack and by check_pus_crc",
+        doc="PUS TC (half of them with a zero CRC over a structural prefix; half after a refused pack of another packet): trailer == reference CRC; every single-bit flip and a burst pattern for every (start bit, length 2..16) outside octets 4-5 is rejected by PusTc.unpack and by check_pus_crc",
         strategy=lambda: st_pus("tc"),
         check=check_pus,
+        classify=_cls_pus,
+        required=["crc over a structural prefix is zero", "refused pack of another packet first"],
         nontrivial=lambda c: True,
         n={"quick": 10, "thorough": 60},
         weight_by_evals=True,
@@ -286,6 +339,8 @@ CLAUSES = [
         doc="PUS TM: as above through PusTm.unpack with the packet's timestamp length",
         strategy=lambda: st_pus("tm"),
         check=check_pus,
+        classify=_cls_pus,
+        required=["crc over a structural prefix is zero", "refused pack of another packet first"],
         nontrivial=lambda c: True,
         n={"quick": 10, "thorough": 60},
         weight_by_evals=True,
